@@ -51,12 +51,14 @@ package engine
 //@   serves C01, C17, C20
 //@   requires engOk(en)
 //@   requires[C08] vm.lockstep(en.vm)
-//@   modifies everything
+//@   modifies everything except f:engine.Config., f:engine.DefaultEngine.rs, f:engine.DefaultEngine.first, f:engine.DefaultEngine.initd, f:engine.DefaultEngine.pe, f:engine.DefaultEngine.dbg, f:engine.DefaultEngine.regexCount, f:render.Sizer.outputSize, f:state.State.BitSize, f:state.State.Flags, f:engine.DefaultEngine.st, f:engine.DefaultEngine.ca, f:engine.DefaultEngine.vm, count(extcalls), count(codegets), count(written)
 //@   ensures @eng engOk(en)
 //@   ensures @same sameEngine(en)
 //@   ensures[C08] @lockstep !old(en.exiting) ==> vm.lockstep(en.vm)
 //@   ensures[C17] @noexec !old(en.execd) ==> result0 == 0 && result1 == ErrFlushNoExec && vm.untouched(en.vm) && count(written) == old(count(written))
 //@     && unchanged(en.exit, en.exiting, en.execd) && en.st.Code == old(en.st.Code)
+//@   ensures[C17] @idle old(en.execd && !fl(en, state.FLAG_DIRTY) && !en.exiting && len(en.exit) == 0) ==> result0 == 0 && result1 == nil && vm.untouched(en.vm)
+//@     && count(written) == old(count(written)) && unchanged(en.exit, en.exiting, en.execd) && en.st.Code == old(en.st.Code) && en.st.input == old(en.st.input)
 //@   ensures[C01] @fits en.cfg.OutputSize > 0 ==> count(written) - old(count(written)) <= int(en.cfg.OutputSize)
 //@   ensures[C20] @ended old(en.execd && en.exiting) && old(vm.depth(en.st)) >= 1 && result1 == nil ==> vm.depth(en.st) == 0 && !en.exiting
 //@     && !fl(en, state.FLAG_TERMINATE) && !fl(en, state.FLAG_DIRTY) && state.clientFlagsSame(en.st)
@@ -66,7 +68,7 @@ package engine
 //@   serves C06, C20
 //@   requires engOk(en)
 //@   requires[C08] vm.lockstep(en.vm)
-//@   modifies everything except ghost:written, ghost:flagcount, f:engine.Config., f:render.Sizer.outputSize
+//@   modifies everything except f:engine.Config., f:engine.DefaultEngine.rs, f:engine.DefaultEngine.first, f:engine.DefaultEngine.initd, f:engine.DefaultEngine.pe, f:engine.DefaultEngine.dbg, f:engine.DefaultEngine.regexCount, f:render.Sizer.outputSize, f:state.State.BitSize, f:state.State.Flags, f:engine.DefaultEngine.st, f:engine.DefaultEngine.ca, f:engine.DefaultEngine.vm, count(extcalls), count(codegets), count(written)
 //@   ensures @eng engOk(en)
 //@   ensures @same sameEngine(en)
 //@   ensures[C08] @lockstep vm.lockstep(en.vm)
@@ -74,3 +76,104 @@ package engine
 //@   ensures[C06,C20] @blocked old(fl(en, state.FLAG_TERMINATE)) && old(len(en.st.Code)) > 0 ==> !result0 && result1 == nil && vm.untouched(en.vm)
 //@     && unchanged(en.exit, en.exiting)
 //@   ensures[C17] @nocode old(len(en.st.Code)) == 0 ==> result1 != nil && !result0 && vm.untouched(en.vm) && unchanged(en.execd, en.exit, en.exiting)
+
+// The VM's sizer carries exactly the configured output size (C01).
+//@ func (*DefaultEngine).setupVm
+//@   serves C01
+//@   requires en != nil && en.st != nil && state.flagsOk(en.st) && en.rs != nil && vm.memOk(en.ca) && vm.memWf(en.ca) && count(flagcount) == int(en.st.BitSize)
+//@   requires en.st.input == nil || !sameBacking(en.st.input, en.st.Flags)
+//@   modifies en.vm
+//@   ensures @wired wired(en) && vm.vmOk(en.vm) && render.pageOk(en.vm.pg) && vm.session(en.vm) && fresh(en.vm)
+//@   ensures @sized sized(en) && (en.cfg.OutputSize == 0 ==> en.vm.sizer == nil)
+
+// First-time setup from the configuration and the persister (assumed as a
+// whole: cbor, the storage backends and language lookup are outside reach).
+// What it must establish for the verified part is stated here.
+//@ pred beforeVm(en) = en != nil && en.st != nil && state.flagsOk(en.st) && en.rs != nil && vm.memOk(en.ca) && vm.memWf(en.ca)
+//@   && count(flagcount) == int(en.st.BitSize) && (en.st.input == nil || !sameBacking(en.st.input, en.st.Flags))
+//@   && vm.levels(en.ca) == vm.depth(en.st) + 1 && int(vm.cac(en.ca).CacheSize) < 2147483648 && !sameBacking(en.st.Code, en.st.Flags)
+//@ func (*DefaultEngine).preparePersist
+//@   assumed
+//@   requires en != nil
+//@   modifies en.st, en.ca
+//@ func (*DefaultEngine).ensureState
+//@   assumed
+//@   requires en != nil
+//@   modifies en.st
+//@ func (*DefaultEngine).ensureMemory
+//@   assumed
+//@   requires en != nil
+//@   modifies en.ca
+//@ func (*DefaultEngine).ensurePersist
+//@   assumed
+//@   requires en != nil
+//@   modifies en.st, en.ca, en.pe
+//@   ensures result == nil ==> beforeVm(en)
+
+// The optional entry function runs in a throw-away VM (assumed; see H24 in DESIGN.md).
+//@ func (*DefaultEngine).runFirst
+//@   assumed
+//@   requires en != nil
+//@   modifies everything except f:engine.Config., f:engine.DefaultEngine.vm, f:engine.DefaultEngine.st, f:engine.DefaultEngine.ca, f:engine.DefaultEngine.rs, f:engine.DefaultEngine.initd, f:engine.DefaultEngine.first, f:engine.DefaultEngine.pe, f:engine.DefaultEngine.dbg, f:engine.DefaultEngine.regexCount, f:state.State.BitSize, f:state.State.Flags, f:render.Sizer.outputSize, count(extcalls), count(codegets), count(written)
+//@   ensures result1 == nil ==> engOk(en)
+//@   ensures en.first == nil ==> result0 && result1 == nil
+
+//@ func (*DefaultEngine).empty
+//@   requires engOk(en)
+//@   requires[C08] vm.lockstep(en.vm)
+//@   modifies everything except f:engine.Config., f:engine.DefaultEngine.rs, f:engine.DefaultEngine.first, f:engine.DefaultEngine.initd, f:engine.DefaultEngine.pe, f:engine.DefaultEngine.dbg, f:engine.DefaultEngine.regexCount, f:render.Sizer.outputSize, f:state.State.BitSize, f:state.State.Flags, f:engine.DefaultEngine.st, f:engine.DefaultEngine.ca, f:engine.DefaultEngine.vm, count(extcalls), count(codegets), count(written)
+//@   ensures @eng engOk(en) && sameEngine(en)
+//@   ensures[C17] @clean old(!fl(en, state.FLAG_DIRTY) && !en.exiting && len(en.exit) == 0 && en.execd) ==> result == nil && vm.untouched(en.vm)
+//@     && unchanged(en.exit, en.exiting, en.execd) && en.st.Code == old(en.st.Code) && en.st.input == old(en.st.input)
+
+// the session part of an engine that a refused request must leave alone
+//@ pred sessionKept(en) = vm.untouched(en.vm) && en.st.Code == old(en.st.Code) && en.st.input == old(en.st.input)
+// an initialised engine whose last output was delivered
+//@ pred idle(en) = en.initd && en.execd && !fl(en, state.FLAG_DIRTY) && !en.exiting && len(en.exit) == 0
+
+// prepare: discards undelivered output, forgets the previous exit value
+// (nothing of the last request leaks into the next one: C07), and sets the
+// engine up on first use.
+//@ func (*DefaultEngine).prepare
+//@   serves C07, C17
+//@   requires en != nil && en.rs != nil && (en.initd || en.execd ==> engOk(en))
+//@   requires[C08] en.initd || en.execd ==> vm.lockstep(en.vm) && !en.exiting
+//@   modifies everything except f:engine.Config., f:engine.DefaultEngine.rs, f:engine.DefaultEngine.first, f:engine.DefaultEngine.initd, f:engine.DefaultEngine.dbg, f:engine.DefaultEngine.regexCount, f:render.Sizer.outputSize, f:state.State.BitSize, f:state.State.Flags, count(extcalls), count(codegets), count(written)
+//@   ensures @ready result == nil ==> engOk(en)
+//@   ensures[C07] @forgotten result == nil ==> !en.execd && len(en.exit) == 0 && !en.exiting
+//@   ensures @same old(en.initd) ==> en.st == old(en.st) && en.ca == old(en.ca) && en.vm == old(en.vm) && en.pe == old(en.pe)
+//@   ensures[C17] @idle old(idle(en)) ==> result == nil && sessionKept(en)
+//@   ensures[C08] @lockstep result == nil ==> vm.lockstep(en.vm)
+
+// init and Exec are verified for the initialised engine (every request after
+// the first); the first-time path (persister, entry function) is covered only
+// by the assumed setup contracts above.
+//@ func (*DefaultEngine).init
+//@   serves C17, C07
+//@   requires en != nil && en.rs != nil && en.initd && engOk(en)
+//@   requires[C08] vm.lockstep(en.vm) && !en.exiting
+//@   modifies everything except f:engine.Config., f:engine.DefaultEngine.rs, f:engine.DefaultEngine.first, f:engine.DefaultEngine.dbg, f:engine.DefaultEngine.regexCount, f:engine.DefaultEngine.initd, f:state.State.BitSize, f:state.State.Flags, f:render.Sizer.outputSize, count(extcalls), count(codegets), count(written)
+//@   ensures @ready result1 == nil ==> result0 && engOk(en) && sameEngine(en)
+//@   ensures[C08] @lockstep result1 == nil ==> vm.lockstep(en.vm)
+//@   ensures[C07] @forgotten result1 == nil ==> !en.execd && len(en.exit) == 0 && !en.exiting
+//@   ensures[C17] @idle old(idle(en)) ==> result0 && result1 == nil && sessionKept(en)
+
+// Exec: refused input (bad format, or longer than the limit) is an error for
+// that request only (C17).
+//@ func (*DefaultEngine).Exec
+//@   serves C17
+//@   premise len(en.cfg.Root) <= 255 && !sameBacking(input, en.st.Flags)
+//@   requires en != nil && en.rs != nil && en.initd && engOk(en)
+//@   requires[C08] vm.lockstep(en.vm) && !en.exiting
+//@   modifies everything except f:engine.Config., f:engine.DefaultEngine.rs, f:engine.DefaultEngine.first, f:engine.DefaultEngine.dbg, f:engine.DefaultEngine.regexCount, f:engine.DefaultEngine.initd, f:state.State.BitSize, f:state.State.Flags, f:render.Sizer.outputSize, count(extcalls), count(codegets), count(written), count(rejected)
+//@   ensures[C17] @format old(idle(en)) && count(rejected) != old(count(rejected)) ==> result1 != nil && sessionKept(en)
+//@   ensures[C17] @length old(idle(en)) && len(input) > 255 ==> result1 != nil && sessionKept(en)
+
+// Reset (ResetOnEmptyInput): start over at the entry node.
+//@ func (*DefaultEngine).Reset
+//@   premise len(en.cfg.Root) <= 255
+//@   requires en != nil && en.initd && engOk(en)
+//@   requires[C08] vm.lockstep(en.vm)
+//@   modifies everything except f:engine., f:state.State.BitSize, f:state.State.Flags, f:render.Sizer.outputSize, count(extcalls), count(codegets), count(written)
+//@   ensures @eng engOk(en)
+//@   ensures[C08] @lockstep vm.lockstep(en.vm)
